@@ -3180,6 +3180,90 @@ func c15r27(c *Ctx, r *Report) {
 	r.floor("stores into Terminal.wrap / multiLine / hscroll in Terminal.Loop", n, 3)
 }
 
+// c14r22: what fzf writes to the terminal is text plus the control sequences fzf itself composes.
+// LightRenderer.stderrInternal filters the text rune by rune: C0 controls are dropped — and so have to be the C1
+// controls U+0080..U+009F, which xterm-like terminals execute in UTF-8 mode (U+009B is CSI, U+009D OSC): a line or
+// file name containing U+009B ?1049l leaves the alternate screen under fzf, U+009B ?1000h switches on a mode fzf
+// never switches off (D107: they passed the filter `r >= 32`).
+func c14r22(c *Ctx, r *Report) {
+	l := c.L
+	r.rule("C14-R22", "C (no C1 control reaches the terminal)", "P1",
+		"in LightRenderer.stderrInternal, the block that appends the decoded rune to the output is reached only on paths whose conditions place the rune outside U+0080..U+009F",
+		"input text can switch terminal modes or leave the alternate screen behind fzf's back: the terminal is not in the state fzf restores on exit")
+	fn := l.Fn("tui", "(*LightRenderer).stderrInternal")
+	if fn == nil {
+		r.unest("anchors", token.NoPos, nil, "anchor LightRenderer.stderrInternal", "cannot resolve")
+		return
+	}
+	pc := pathConds(fn)
+	n := 0
+	eachInstr(fn, func(in ssa.Instruction) {
+		st, ok := in.(*ssa.Store)
+		if !ok {
+			return
+		}
+		ex, ok := st.Val.(*ssa.Extract)
+		if !ok || ex.Index != 0 {
+			return
+		}
+		call, ok := ex.Tuple.(*ssa.Call)
+		if !ok || calleeName(call.Common()) != "unicode/utf8.DecodeRune" {
+			return
+		}
+		n++
+		excluded, reach := pc.Implies(st.Block(), func(lits []Lit) bool {
+			for _, lt := range lits {
+				bo, ok := lt.Atom.(*ssa.BinOp)
+				if !ok || bo.X != ssa.Value(ex) {
+					continue
+				}
+				k, isK := constIntVal(bo.Y)
+				if !isK {
+					continue
+				}
+				lo, hi := int64(-1<<62), int64(1<<62)
+				switch bo.Op {
+				case token.LSS:
+					if lt.Val {
+						hi = k - 1
+					} else {
+						lo = k
+					}
+				case token.LEQ:
+					if lt.Val {
+						hi = k
+					} else {
+						lo = k + 1
+					}
+				case token.GTR:
+					if lt.Val {
+						lo = k + 1
+					} else {
+						hi = k
+					}
+				case token.GEQ:
+					if lt.Val {
+						lo = k
+					} else {
+						hi = k - 1
+					}
+				case token.EQL:
+					if lt.Val {
+						lo, hi = k, k
+					}
+				}
+				if hi < 0x80 || lo > 0x9f {
+					return true
+				}
+			}
+			return false
+		})
+		r.check(excluded && reach, fmt.Sprintf("%s:emitted rune #%d is not a C1 control", relName(fn), n), st.Pos(), fn,
+			"every path excludes U+0080..U+009F", "a rune in U+0080..U+009F reaches the output: terminals that honour C1 controls in UTF-8 mode execute it (U+009B = CSI, U+009D = OSC)")
+	})
+	r.floor("places where stderrInternal emits the decoded rune", n, 1)
+}
+
 func round10(c *Ctx, r *Report, prop string) {
 	switch prop {
 	case "C01":
@@ -3226,6 +3310,7 @@ func round10(c *Ctx, r *Report, prop string) {
 		c13r17(c, r) // the events that announce the complete list act on the complete list
 	case "C14":
 		c14r21(c, r)
+		c14r22(c, r)
 	case "C15":
 		c15r18(c, r)
 		c15r19(c, r)
